@@ -337,6 +337,9 @@ def run_property(mod, prop, tier, seed, build, t0, skip_d=False, skip_b=False, o
         seen.add(c["name"])
         if c["verdict"] == "discharged":
             continue
+        if match_finding(findings, obligation=c["name"]) is not None:
+            failed_clauses.append(c)      # a recorded finding at obligation level: printed as KNOWN-FINDING below, never as a violation
+            continue
         was_expected = exp_names is None or c["name"] in exp_names
         if c["verdict"] == "undecided" and was_expected and exp_names is not None and c["fn"] in exp_hashes and cur_hashes.get(c["fn"]) not in (None, exp_hashes[c["fn"]]):
             # the proof of this clause went through on the reference tree and no back end can rebuild it for the CHANGED source of the function:
